@@ -1,6 +1,9 @@
 #!/usr/bin/env python3
 """development helper: register every `theorem Cxx_*` of lean/RxModel/Props/Cxx.lean (plus extra modules given)
-in theorems.json and pin its pretty-printed statement:  tools_register.py C09 [extra props file stems...]"""
+in theorems.json and pin its pretty-printed statement:  tools_register.py C09 [extra props file stems...]
+Stems starting with `Link` are link modules (Props/Link*.lean: theorems about the kernels generated from the source by
+harness/pygen.py): their `Link_*` / `Exact_*` theorems are registered too and the modules are listed under gen_modules
+(re-checked against freshly generated kernels whenever the generated text differs from the committed RxGen/Kernels.lean)."""
 import json, re, subprocess, sys, os
 ROOT = os.path.dirname(os.path.abspath(__file__))
 prop = sys.argv[1]
@@ -12,7 +15,12 @@ for st in stems:
     mods.append('RxModel.Props.%s' % st)
     if st == prop:
         names += re.findall(r'^theorem\s+(C\d+_\w+)', src, re.M)
+    if st.startswith('Link'):
+        names += re.findall(r'^theorem\s+((?:Link|Exact)_\w+)', src, re.M)
 reg = json.load(open(os.path.join(ROOT, 'theorems.json')))
 reg[prop] = {'modules': mods, 'theorems': [{'name': 'Rx.' + n} for n in names]}
+gen = ['RxModel.Props.%s' % st for st in stems if st.startswith('Link')]
+if gen:
+    reg[prop]['gen_modules'] = gen
 json.dump(reg, open(os.path.join(ROOT, 'theorems.json'), 'w'), indent=1)
 sys.exit(subprocess.call([os.path.join(ROOT, 'check'), '--pin', prop]))
